@@ -209,12 +209,12 @@ fn stage_names(st: &[Stage]) -> String {
     .join(".")
 }
 
-fn build_stages(mut o: Obs, st: &[Stage]) -> Obs {
+fn build_stages(mut o: Obs, st: &[Stage], kinds: &[u32]) -> Obs {
   for s in st {
     o = match s {
       Stage::U(op, p) => cat::build(*op, o, p),
-      Stage::B(op, true, tag) => cat::build2(*op, o, cat::hot_tagged(*tag)),
-      Stage::B(op, false, tag) => cat::build2(*op, cat::hot_tagged(*tag), o),
+      Stage::B(op, true, tag) => cat::build2(*op, o, cat::hot_kind(*tag, kinds[*tag])),
+      Stage::B(op, false, tag) => cat::build2(*op, cat::hot_kind(*tag, kinds[*tag]), o),
     };
   }
   o
@@ -255,7 +255,10 @@ fn hot_chain(mode: Mode, depth: usize, k: usize, binary: bool) {
   }
   e::note(format!("chain {}", stages.iter().map(show_stage).collect::<Vec<_>>().join(" -> ")));
   let probe = fresh_probe();
-  let o = build_stages(cat::hot_tagged(0), &stages);
+  // every hot input is either a parked `create` subscriber handle or a Subject
+  let kinds: Vec<u32> = (0..=depth).map(|_| e::choose(2)).collect();
+  e::note(format!("hot input kinds {:?} (0 = create handle, 1 = Subject)", kinds));
+  let o = build_stages(cat::hot_kind(0, kinds[0]), &stages, &kinds);
   let mut unsub: Option<BoxSubscription<'static>> = Some(subscribe(o, probe));
   let names = stage_names(&stages);
   let cut = if mode == Mode::Unsub { e::choose(k as u32 + 1) as usize } else { usize::MAX };
@@ -273,10 +276,8 @@ fn hot_chain(mode: Mode, depth: usize, k: usize, binary: bool) {
         probe.silence();
         e::note("unsubscribe()".to_string());
         for t in &tags {
-          if let Some(h) = cat::handle_nth(*t, 0) {
-            if !h.is_closed() {
-              e::fail(&format!("handle-open-after-unsubscribe/{}", names), || format!("source-side handle of hot#{} reports open after unsubscribe()", t));
-            }
+          if cat::hot_is_closed(*t) == Some(false) {
+            e::fail(&format!("handle-open-after-unsubscribe/{}", names), || format!("source-side handle of hot#{} reports open after unsubscribe()", t));
           }
         }
       }
@@ -294,9 +295,7 @@ fn hot_chain(mode: Mode, depth: usize, k: usize, binary: bool) {
     if t == 0 {
       evs0.push(ev.clone());
     }
-    if let Some(mut h) = cat::handle_nth(t, 0) {
-      feed(&mut h, &ev);
-    }
+    cat::feed_hot(t, &ev);
     if mode == Mode::IsClosed {
       if let Some(u) = unsub.as_ref() {
         let c = u.is_closed();
@@ -312,11 +311,8 @@ fn hot_chain(mode: Mode, depth: usize, k: usize, binary: bool) {
     if mode == Mode::Finished && probe.terminated() {
       // the subscriber is done: every producer feeding it must be able to see that
       for t in &tags {
-        if let Some(h) = cat::handle_nth(*t, 0) {
-          let fin = Observer::<Val, Val>::is_finished(&h);
-          if !fin {
-            e::fail(&format!("is_finished-not-forwarded/{}/hot#{}", names, t), || format!("downstream terminated but the producer handle hot#{} sees is_finished() == false", t));
-          }
+        if cat::hot_is_finished(*t) == Some(false) {
+          e::fail(&format!("is_finished-not-forwarded/{}/hot#{}", names, t), || format!("downstream terminated but the producer handle hot#{} sees is_finished() == false", t));
         }
       }
     }
